@@ -146,8 +146,8 @@ func newUnit(prog *Program, fi *FuncInfo, blk *Block, prop string, suffix string
 // entry environment: parameters, receiver, named results
 func (u *Unit) setupEntry() *Env {
 	fi := u.FI
-	env := &Env{vars: map[types.Object]Term{}, heaps: map[string]Term{}, tags: map[string]int{}, alias: map[string]Term{}, held: map[string]string{}, clock: IntLit(1)}
-	u.entry = &Env{vars: map[types.Object]Term{}, heaps: map[string]Term{}, tags: map[string]int{}, alias: map[string]Term{}, held: map[string]string{}, clock: IntLit(1)}
+	env := &Env{vars: map[types.Object]Term{}, heaps: map[string]Term{}, tags: map[string]int{}, alias: map[string]Term{}, held: map[string]string{}, clock: IntLit(1), aliasTy: map[string]types.Type{}}
+	u.entry = &Env{vars: map[types.Object]Term{}, heaps: map[string]Term{}, tags: map[string]int{}, alias: map[string]Term{}, held: map[string]string{}, clock: IntLit(1), aliasTy: map[string]types.Type{}}
 	u.curFn = []*FuncInfo{fi}
 	u.loops, u.lits = numberLoops(fi.Decl)
 	sig := fi.Obj.Type().(*types.Signature)
@@ -327,12 +327,24 @@ func (u *Unit) checkPost(o Outcome) {
 		}
 		sc := *u.ownCtx
 		sc.post = true
-		t := u.specExprCtx(cl, o.env, &sc)
+		t, terr := u.trySpec(cl, o.env, &sc)
+		if terr != "" {
+			// the clause cannot even be stated on this path (e.g. it names the result of a call that did not happen)
+			t = False
+			cl.Text += "   [not expressible on this path: " + terr + "]"
+		}
 		pos := o.pos
 		if !pos.IsValid() {
 			pos = u.FI.Decl.End()
 		}
 		u.assert(o.env, "post/"+label, "post", pos, cl.Text, t)
+	}
+	if u.Block != nil && u.Block.Opts["guarded"] != "" {
+		u.assert(o.env, "perm/one-delegated-call", "perm", o.pos, fmt.Sprintf("exactly one call on the guarded object on every path (this path: %d)", o.env.delegated), boolTerm(o.env.delegated == 1))
+		if u.recvObj != nil {
+			_, isPtr := types.Unalias(u.recvObj.Type()).Underlying().(*types.Pointer)
+			u.assert(o.env, "perm/lock-not-copied", "perm", u.FI.Decl.Pos(), "the receiver holding the lock is a pointer (a value receiver would lock a private copy of the mutex)", boolTerm(isPtr))
+		}
 	}
 	if len(o.env.held) > 0 {
 		var ks []string
@@ -497,4 +509,18 @@ func (u *Unit) mapFacts(env *Env, m Term, mt *types.Map) {
 	sel := Select(Select(dom, m), k)
 	env.assume(Forall([]Term{k}, Imp(sel, lt(IntLit(0), ln)), []Term{sel}))
 	u.assumeUsed("map parameters are well formed: len(m) >= 0 and len(m) == 0 implies no key is present")
+}
+
+func (u *Unit) trySpec(cl Clause, env *Env, sc *specCtx) (t Term, err string) {
+	defer func() {
+		if r := recover(); r != nil {
+			if us, ok := r.(unsupported); ok {
+				err = us.msg
+				u.inSpec = false
+				return
+			}
+			panic(r)
+		}
+	}()
+	return u.specExprCtx(cl, env, sc), ""
 }
